@@ -103,11 +103,12 @@ class StyleProperties:
 
     @classmethod
     def from_model(cls, xml_element, model_value: styles.ColorType):
-      if model_value != styles.NamedColors.transparent.value:
-        xml_element.set(
-          f"{{{cls.ns}}}{cls.local_name}",
-          StyleProperties.to_ttml_color(model_value)
-        )
+      # a transparent background is written too: it is not necessarily the initial value (initial element), and as the
+      # value of an animation step it is what the step sets
+      xml_element.set(
+        f"{{{cls.ns}}}{cls.local_name}",
+        StyleProperties.to_ttml_color(model_value)
+      )
 
   class Color(StyleProperty):
     '''Corresponds to tts:color.'''
